@@ -125,18 +125,20 @@ theorem slice_ok (l : LX) (a c : Nat) (h1 : a ≤ c) (h2 : c ≤ l.input.size) :
 theorem skipWhitespace_spec (l : LX) (w : l.WF) :
     Adv l l.skipWhitespace ∧ Gen.isWhitespace l.skipWhitespace.ch = false ∧ l.skipWhitespace.inside = l.inside
       ∧ (l.pos < l.input.size → l.skipWhitespace.pos ≤ l.input.size)
-      ∧ (l.input.size ≤ l.pos → l.skipWhitespace.ch = 0) := by
+      ∧ (l.input.size ≤ l.pos → l.skipWhitespace = l) := by
   unfold skipWhitespace
-  by_cases h : l.rp ≥ l.input.size
-  · simp only [h, if_true]
-    have hz : l.readChar.ch = 0 := by simp [getD_zero_of_ge _ _ h]
-    refine ⟨Adv.readChar w, by rw [hz]; exact isWhitespace_zero, rfl, ?_, fun _ => hz⟩
-    intro hlt; simp; rw [w.rp] at h ⊢; omega
-  · simp only [h, if_false]
-    rw [skipWsLoop_eq]
-    have hlt : l.pos + 1 < l.input.size := by rw [w.rp] at h; omega
-    have := readWhile_spec Gen.isWhitespace isWhitespace_zero (l.input.size + 2) l w (by omega) (by omega)
-    exact ⟨this.1, this.2.2.1, this.2.2.2.1, fun _ => this.2.1, fun hge => by omega⟩
+  rw [skipWsLoop_eq]
+  by_cases h : l.pos ≤ l.input.size
+  · have := readWhile_spec Gen.isWhitespace isWhitespace_zero (l.input.size + 2) l w h (by omega)
+    refine ⟨this.1, this.2.2.1, this.2.2.2.1, fun _ => this.2.1, fun hge => ?_⟩
+    have hz := w.ch_zero hge
+    unfold readWhile
+    simp [hz, isWhitespace_zero]
+  · have hz := w.ch_zero (by omega)
+    have e : readWhile Gen.isWhitespace (l.input.size + 2) l = l := by
+      unfold readWhile; simp [hz, isWhitespace_zero]
+    rw [e]
+    exact ⟨Adv.refl w, by rw [hz]; exact isWhitespace_zero, rfl, fun h' => by omega, fun _ => rfl⟩
 
 theorem readIdentifier_spec (l : LX) (w : l.WF) (hlt : l.pos < l.input.size) :
     Adv l l.readIdentifier.2 ∧ l.readIdentifier.2.pos ≤ l.input.size ∧ l.readIdentifier.2.inside = l.inside
@@ -528,10 +530,10 @@ namespace LX
 /-- at the end of the input a tag-mode `NextToken` is EOF -/
 theorem nextInsideToken_eof (fuel : Nat) (l : LX) (w : l.WF) (h : l.input.size ≤ l.pos) :
     (nextInsideToken (fuel + 1) l).1.type = .EOF := by
-  have sw := skipWhitespace_spec l w
-  have hz := sw.2.2.2.2 h
+  have hsw := (skipWhitespace_spec l w).2.2.2.2 h
+  have hz := w.ch_zero h
   unfold nextInsideToken
-  simp only [hz]
+  simp only [hsw, hz]
   simp [isLetter_zero, isDigit_zero]
   rfl
 
@@ -573,13 +575,12 @@ theorem readChar_line_of_ge (l : LX) (h : l.input.size ≤ l.rp) : l.readChar.li
   simp [readChar, getD_zero_of_ge _ _ h]
 
 theorem nextInsideToken_done (fuel : Nat) (l : LX) (w : l.WF) (h : l.input.size ≤ l.pos) :
-    nextInsideToken (fuel + 1) l = ({ type := .EOF, lit := [], line := l.line }, l.readChar.readChar) := by
-  have hrp : l.rp ≥ l.input.size := by rw [w.rp]; omega
-  have hsw : l.skipWhitespace = l.readChar := by simp [skipWhitespace, hrp]
-  have hz : l.readChar.ch = 0 := by simp [getD_zero_of_ge _ _ hrp]
+    nextInsideToken (fuel + 1) l = ({ type := .EOF, lit := [], line := l.line }, l.readChar) := by
+  have hsw := (skipWhitespace_spec l w).2.2.2.2 h
+  have hz := w.ch_zero h
   unfold nextInsideToken
   simp only [hsw, hz]
-  simp [finish, readChar_line_of_ge l hrp]
+  simp [finish]
 
 theorem done_step (l : LX) (w : l.WF) (hd : l.Done) :
     l.nextToken.1 = { type := .EOF, lit := [], line := l.line } ∧ l.nextToken.2.Done ∧ l.nextToken.2.line = l.line := by
@@ -593,8 +594,8 @@ theorem done_step (l : LX) (w : l.WF) (hd : l.Done) :
     rw [nextInsideToken_done _ l w hge]
     refine ⟨rfl, Or.inr ?_, ?_⟩
     · simp; rw [w.rp]; omega
-    · show l.readChar.readChar.line = l.line
-      rw [readChar_line_of_ge _ (by simp; rw [w.rp]; omega), readChar_line_of_ge _ (by rw [w.rp]; omega)]
+    · show l.readChar.line = l.line
+      rw [readChar_line_of_ge _ (by rw [w.rp]; omega)]
   · have hi' := Bool.eq_false_iff.mpr hi
     have hc : l.ch = 0 := by
       rcases hd with ⟨_, h2⟩ | h
